@@ -3,7 +3,15 @@ From Coq Require Import ZArith List Bool Lia ZifyBool.
 From EN Require Import Lib.Bytes Conc.TlsBase Conc.TlsPump Gen.ParamsC08.
 
 (* the proofs must hold whatever the regenerated flag says *)
-Opaque recheck_after_recv_lock.
+Opaque recheck_after_recv_lock send_lock_only_if_pending.
+Ltac flush_cases :=
+  unfold flush_pc in *;
+  repeat match goal with
+  | H : context [send_lock_only_if_pending && wbio_empty ?s] |- _ =>
+      let E := fresh "Esk" in destruct (send_lock_only_if_pending && wbio_empty s) eqn:E
+  | |- context [send_lock_only_if_pending && wbio_empty ?s] =>
+      let E := fresh "Esk" in destruct (send_lock_only_if_pending && wbio_empty s) eqn:E
+  end.
 Ltac go_recv H sn :=
   unfold go in H; destruct (recv_lock _) eqn:?L; [discriminate |];
   destruct (recheck_after_recv_lock && negb (Nat.eqb (feeds _) sn)).
